@@ -211,6 +211,43 @@ pub fn gen(out: &mut Out, thorough: bool) {
         out.count_n("same_prefix_last_char_families", n);
         out.exhaustive.push(format!("for every key/string byte length 1..=40: all pairs of {} last characters behind a common prefix (as keys, as strings), all triples of the first 7 as keys", lasts.len()));
     }
+    // SCALE: arrays, objects and strings with N = 2^8, 2^12, 2^16 (+-1, and off the block size) items /
+    // entries / characters that differ ONLY at the very end, in the last block, right after a block
+    // boundary, or not at all (block-wise comparison, truncated length, capped hashing)
+    {
+        let mut n = 0u64;
+        for &len in (if thorough { &[255usize, 256, 257, 4095, 4096, 4097, 4104, 5000, 8191, 8193, 65535, 65536, 65537][..] } else { &[257usize, 4096, 4097, 5000, 8193][..] }) {
+            let obj = |change: Option<(usize, u8)>| -> String {
+                // change: (position, 0 = other value, 1 = other key)
+                let mut t = String::from("{");
+                for i in 0..len {
+                    let (mut k, mut v) = (format!("6b.{:x}", 0x100 + i), format!("#{:x};", 0x30 + i % 10));
+                    if let Some((p, what)) = change { if p == i { if what == 0 { v = "n".into(); } else { k.push_str(".78"); } } }
+                    t.push_str(&format!("k{};{}", k, v));
+                }
+                t.push('}');
+                t
+            };
+            let arr = |change: Option<usize>| -> String { format!("[{}]", (0..len).map(|i| if change == Some(i) { "t".to_string() } else { format!("#{:x};", 0x30 + i % 10) }).collect::<String>()) };
+            let base_o = obj(None);
+            let base_a = arr(None);
+            for p in [len - 1, len - 2, len - len % 4096, (len - len % 4096).saturating_sub(1), len / 2, 0] {
+                if p >= len { continue; }
+                l(format!("ord cmp {} {}", base_o, obj(Some((p, 0)))), out);
+                l(format!("ord cmp {} {}", obj(Some((p, 1))), base_o), out);
+                l(format!("ord cmp {} {}", base_a, arr(Some(p))), out);
+                n += 3;
+            }
+            l(format!("ord cmp {} {}", base_o, base_o), out);
+            l(format!("ord cmp3 {} {} {}", obj(Some((len - 1, 0))), base_o, obj(Some((len - 1, 1)))), out);
+            l(format!("ord cmp s61*{};  s61*{}.62;", len, len - 1).replace(";  ", "; "), out);
+            l(format!("ord cmp {{k61*{};n}} {{k61*{}.62;n}}", len, len - 1), out);
+            l(format!("ord cmp #31.30*{}; #31.30*{}.31;", len, len - 1), out);
+            n += 5;
+        }
+        out.count_n("scale_pairs", n);
+        out.exhaustive.push("scale: objects / arrays / strings / keys / numbers of 2^8, 2^12, 2^13, 2^16 (+-1, 5000) elements against copies that differ in one value or one key at the last position, the one before, the first of the last 4096-block, the last of the block before, the middle, the first — and against themselves".into());
+    }
     // generated values with near-copies
     let n = if thorough { 400000 } else { 6000 };
     for _ in 0..n {
